@@ -328,6 +328,27 @@ def check_program(r: Run, stream, text, ref, use_qiskit, sig=None, what=None,
                         'from Qiskit\'s reading',
                         {**info, 'qiskit': repr(tq), 'bqskit': repr(tb)})
     r.correspond(stream, text, c, exc, reported=lambda: bool(found))
+
+    # the Lean reference elaboration (Model/QasmSpec) against the Python reference: the two
+    # independently written statements of what the program means must coincide
+    def cb_spec(out, rops=rops, n_ref=n_ref):
+        ck.bump('spec_vs_reference')
+        m = parse_model(out)
+        why = None
+        if m is None:
+            why = 'Lean spec rejects the program'
+        elif m[0] != n_ref:
+            why = f'num_qubits {m[0]} vs {n_ref}'
+        else:
+            why = ops_diff(canon(m[2]), rops)
+        if why:
+            ck.violation('C17-spec-vs-reference',
+                         'the Lean reference elaboration (BqVerif.Qasm.specDecode) and the '
+                         f'Python reference elaboration disagree ({why}) -- a problem of the '
+                         'check, not of bqskit',
+                         {**info, 'why': why, 'lean_spec': out, 'reference': fmt_ops(rops),
+                          'broken': 'spec correspondence'}, found_input=False)
+    r.ask('spec ' + esc(text), cb_spec)
     return c, found
 
 
